@@ -759,3 +759,694 @@ Proof.
   constructor; [exact R|]. destruct R as [Rs _]. rewrite Rs.
   apply IH. exact Bs.
 Qed.
+
+(* ======================================================= rejection *)
+
+Ltac break_match :=
+  match goal with
+  | |- context [match ?x with _ => _ end] => destruct x eqn:?
+  end.
+
+Lemma add_header_raise s n v ps s' e :
+  add_header s n v ps = (s', Raised e) -> s' = s.
+Proof.
+  unfold add_header. repeat break_match; intros H; injection H; intros;
+    subst; try reflexivity; discriminate.
+Qed.
+
+(* an operation that raises (whatever it raises) stores nothing; the only
+   state change possible is the deletion done by h[name] = value *)
+Theorem raise_never_stores s o e :
+  snd (step s o) = Raised e ->
+  fst (step s o) = s \/
+  exists n v, o = OSet n v /\ delitem s n = Ok (fst (step s o)).
+Proof.
+  destruct o as [c|c|n v|n v ps|n v|n|n v|n|n|n|n| | | |]; cbn [step];
+    unfold add, setitem, setdefault, of_res.
+  5:{ (* OSet *)
+      destruct (delitem s n) as [s1|e1] eqn:D; [|left; reflexivity].
+      destruct (add_header s1 n (HArg v) []) as [s2 o2] eqn:A. cbn [fst snd].
+      intros ->. right. exists n, v. split; [reflexivity|].
+      rewrite D, (add_header_raise _ _ _ _ _ _ A). reflexivity. }
+  all: repeat break_match; cbn [fst snd]; intros H; subst;
+    try first [discriminate | left; reflexivity
+          | destruct v; discriminate
+          | left; eapply add_header_raise; eassumption ].
+  all: left;
+    match goal with
+    | H : snd ?x = Raised _ |- _ =>
+        destruct x as [s2 o2] eqn:A; cbn [fst snd] in *; subst o2;
+        eapply add_header_raise; exact A
+    end.
+Qed.
+
+Lemma step_unlowerable s o :
+  benign o = false ->
+  (exists n v, o = OSet n v /\ lowerable n = true) \/
+  step s o = (s, Raised AttributeError).
+Proof.
+  destruct o as [c|c|n v|n v ps|n v|n|n v|n|n|n|n| | | |]; cbn [benign];
+    try discriminate; intros B.
+  - right. destruct n; try discriminate; reflexivity.
+  - destruct (lowerable n) eqn:L; [left; eauto|right].
+    destruct n; try discriminate; reflexivity.
+  - right. destruct n; try discriminate; reflexivity.
+  - right. destruct n; try discriminate; reflexivity.
+  - right. destruct n; try discriminate; reflexivity.
+  - right. destruct n; try discriminate; reflexivity.
+  - right. destruct n; try discriminate; reflexivity.
+  - right. destruct n; try discriminate; reflexivity.
+Qed.
+
+(* whatever the reference rejects, the code refuses with an exception that
+   is not KeyError: TypeError, ValueError - or AttributeError, see below *)
+Theorem invalid_raises s o :
+  snd (spec_step utf8_encode s o) = SRejected ->
+  exists e, snd (step s o) = Raised e /\
+            (e = TypeError \/ e = ValueError \/ e = AttributeError).
+Proof.
+  intros H. destruct (benign o) eqn:B.
+  - destruct (step_refines s o B) as [_ R]. rewrite H in R. cbn [out_rel] in R.
+    destruct R as [R|R]; rewrite R; eexists; (split; [reflexivity|auto]).
+  - destruct (step_unlowerable s o B) as [(n & v & -> & L)|E].
+    + cbn [benign] in B. rewrite L in B. cbn [andb] in B.
+      apply orb_false_iff in B. destruct B as [Bn Bv].
+      apply negb_false_iff in Bn. unfold text_ok in Bn, Bv.
+      destruct (text n) as [t|] eqn:En; [|discriminate].
+      destruct (text v) as [tv|] eqn:Ev; [discriminate|].
+      cbn [step]. unfold setitem. rewrite (delitem_text _ _ _ En).
+      destruct (add_header_bad_value (others (utf8_encode t) s) n v Ev)
+        as (e & E & [-> | ->]); rewrite E; eexists; (split; [reflexivity|auto]).
+    + rewrite E. eexists; split; [reflexivity|auto].
+Qed.
+
+(* The full statements are false of the code: *)
+Theorem nonstr_name_attributeerror_refuted :
+  exists s n v,
+    snd (spec_step utf8_encode s (OAdd n v)) = SRejected /\
+    step s (OAdd n v) = (s, Raised AttributeError).
+Proof. exists [], (AInt 5), (AStr [120]). split; reflexivity. Qed.
+
+Theorem set_rejected_value_deletes_refuted :
+  exists s n v,
+    spec_step utf8_encode s (OSet n v) = (s, SRejected) /\
+    step s (OSet n v) = ([], Raised TypeError) /\ s <> [].
+Proof.
+  exists [([88], [49])], (AStr [120]), (AInt 5).
+  split; [reflexivity|]. split; [reflexivity|discriminate].
+Qed.
+
+Theorem refines_all_operations_refuted :
+  exists s o, ~ step_rel (step s o) (spec_step utf8_encode s o).
+Proof.
+  exists [([88], [49])], (OSet (AStr [120]) (AInt 5)).
+  intros [H _]. discriminate H.
+Qed.
+
+(* ================================================== stored is latin-1 *)
+
+Lemma forallb_replace_char (P : Z -> bool) c r s :
+  forallb P r = true -> forallb P s = true ->
+  forallb P (replace_char c r s) = true.
+Proof.
+  intros Hr. unfold replace_char. induction s as [|x s IH]; intros H; [reflexivity|].
+  cbn [forallb] in H. apply andb_true_iff in H. destruct H as [Hx Hs].
+  cbn [flat_map]. rewrite forallb_app, (IH Hs).
+  destruct (x =? c); [rewrite Hr; reflexivity|]. cbn [forallb]. rewrite Hx. reflexivity.
+Qed.
+
+Lemma forallb_join (P : Z -> bool) sep parts :
+  forallb P sep = true -> forallb (forallb P) parts = true ->
+  forallb P (join sep parts) = true.
+Proof.
+  intros Hs. induction parts as [|p rest IH]; intros H; [reflexivity|].
+  cbn [forallb] in H. apply andb_true_iff in H. destruct H as [Hp Hr].
+  destruct rest as [|q rest]; [exact Hp|].
+  rewrite join_cons, !forallb_app, Hp, Hs. cbn [andb]. exact (IH Hr).
+Qed.
+
+Lemma iso_latin1 a w :
+  arg_cps a = true -> iso88591 a = Ok w -> latin1 w = true.
+Proof.
+  destruct a as [s| | |]; cbn [arg_cps iso88591]; try discriminate.
+  intros H. destruct (encodable s); [|discriminate].
+  intros E. injection E as <-. apply utf8_encode_latin1. exact H.
+Qed.
+
+Lemma formatparam_latin1 p v :
+  latin1 p = true -> latin1 v = true -> latin1 (formatparam p v) = true.
+Proof.
+  unfold latin1, formatparam, escape. intros Hp Hv.
+  destruct (negb (is_nil v)); [|exact Hp].
+  rewrite !forallb_app, Hp.
+  rewrite forallb_replace_char;
+    [reflexivity|reflexivity|apply forallb_replace_char; [reflexivity|exact Hv]].
+Qed.
+
+Definition params_wf (ps : list (str * arg)) : bool :=
+  forallb (fun kv => forallb is_cp (fst kv) && arg_cps (snd kv)) ps.
+
+Lemma params_parts_latin1 ps l :
+  params_wf ps = true -> params_parts ps = Ok l -> forallb latin1 l = true.
+Proof.
+  unfold params_wf. revert l.
+  induction ps as [|[k val] ps IH]; intros l W H.
+  - injection H as <-. reflexivity.
+  - cbn [forallb fst snd] in W. apply andb_true_iff in W. destruct W as [Wk Wps].
+    apply andb_true_iff in Wk. destruct Wk as [Wk Wv].
+    cbn [params_parts] in H.
+    destruct (iso88591 (AStr k)) as [k'|] eqn:Ek; [|discriminate].
+    pose proof (iso_latin1 (AStr k) _ Wk Ek) as Lk. cbn [bind] in H.
+    assert (Lr : latin1 (replace_char 95 [45] k') = true)
+      by (apply forallb_replace_char; [reflexivity|exact Lk]).
+    destruct (params_parts ps) as [more|] eqn:Em.
+    2:{ destruct val; try discriminate;
+        match type of H with
+        | context [iso88591 ?a] => destruct (iso88591 a); discriminate
+        end. }
+    pose proof (IH _ Wps eq_refl) as Lm.
+    destruct val as [sv|bv| |zv]; try discriminate.
+    + destruct (iso88591 (AStr sv)) as [v'|] eqn:Ev; [|discriminate].
+      cbn [bind] in H. injection H as <-. cbn [forallb].
+      rewrite formatparam_latin1, Lm;
+        [reflexivity|exact Lr|exact (iso_latin1 _ _ Wv Ev)].
+    + cbn [bind] in H. injection H as <-. cbn [forallb]. rewrite Lr, Lm.
+      reflexivity.
+Qed.
+
+Lemma nego_cps items :
+  forallb (forallb (forallb is_cp)) items = true ->
+  forallb is_cp (render_negotiation items) = true.
+Proof.
+  intros H. unfold render_negotiation.
+  apply forallb_join; [reflexivity|].
+  induction items as [|it items IH]; [reflexivity|].
+  cbn [forallb] in H. apply andb_true_iff in H. destruct H as [Hi Hs].
+  cbn [map forallb]. rewrite (IH Hs), forallb_join; [reflexivity|reflexivity|exact Hi].
+Qed.
+
+Lemma header_parts_latin1 v ps l :
+  hval_cps v = true -> params_wf ps = true ->
+  header_parts v ps = Ok l -> forallb latin1 l = true.
+Proof.
+  intros Wv Wp. destruct v as [a|items]; cbn [header_parts hval_cps] in *.
+  - destruct (params_parts ps) as [more|] eqn:Em.
+    2:{ destruct a; try discriminate;
+        try (match goal with
+             | |- context [iso88591 ?a] => destruct (iso88591 a)
+             end); discriminate. }
+    pose proof (params_parts_latin1 _ _ Wp Em) as Lm.
+    destruct a as [sv|bv| |zv]; try discriminate.
+    + destruct (iso88591 (AStr sv)) as [v'|] eqn:Ev; [|discriminate].
+      cbn [bind app]. intros H. injection H as <-. cbn [forallb].
+      rewrite (iso_latin1 _ _ Wv Ev), Lm. reflexivity.
+    + cbn [bind app]. intros H. injection H as <-. exact Lm.
+  - destruct (iso88591 (AStr (render_negotiation items))) as [w|] eqn:E;
+      [|discriminate].
+    cbn [bind]. intros H. injection H as <-. cbn [forallb].
+    rewrite (iso_latin1 (AStr (render_negotiation items)) w); auto.
+    cbn [arg_cps]. apply nego_cps. exact Wv.
+Qed.
+
+Lemma latin1_state_app a b :
+  latin1_state (a ++ b) = latin1_state a && latin1_state b.
+Proof. apply forallb_app. Qed.
+
+Lemma latin1_state_filter f s :
+  latin1_state s = true -> latin1_state (filter f s) = true.
+Proof.
+  unfold latin1_state. induction s as [|kv s IH]; intros H; [reflexivity|].
+  cbn [forallb] in H. apply andb_true_iff in H. destruct H as [Hk Hs].
+  cbn [filter]. destruct (f kv); [cbn [forallb]; rewrite Hk|]; auto.
+Qed.
+
+Lemma add_header_latin1 s n v ps :
+  latin1_state s = true -> arg_cps n = true -> hval_cps v = true ->
+  params_wf ps = true -> latin1_state (fst (add_header s n v ps)) = true.
+Proof.
+  intros Ls Wn Wv Wp. unfold add_header.
+  destruct (header_parts v ps) as [parts|] eqn:Eh; [|exact Ls].
+  destruct (is_nil parts); [exact Ls|].
+  destruct (iso88591 n) as [n'|] eqn:En; [|exact Ls].
+  cbn [fst]. rewrite latin1_state_app, Ls. unfold latin1_state.
+  cbn [forallb fst snd andb]. rewrite (iso_latin1 _ _ Wn En).
+  unfold latin1 at 1. rewrite forallb_join;
+    [reflexivity|reflexivity|exact (header_parts_latin1 _ _ _ Wv Wp Eh)].
+Qed.
+
+Lemma iso_pairs_latin1 l st :
+  forallb (fun kv => arg_cps (fst kv) && arg_cps (snd kv)) l = true ->
+  iso_pairs l = Ok st -> latin1_state st = true.
+Proof.
+  revert st. induction l as [|[k v] l IH]; intros st W H.
+  - injection H as <-. reflexivity.
+  - cbn [forallb fst snd] in W. apply andb_true_iff in W. destruct W as [Wk Wl].
+    apply andb_true_iff in Wk. destruct Wk as [Wk Wv].
+    cbn [iso_pairs] in H.
+    destruct (iso88591 k) as [k'|] eqn:Ek; [|discriminate].
+    destruct (iso88591 v) as [v'|] eqn:Ev; [|discriminate].
+    destruct (iso_pairs l) as [more|] eqn:Em; [|discriminate].
+    cbn [bind] in H. injection H as <-. unfold latin1_state. cbn [forallb fst snd].
+    rewrite (iso_latin1 _ _ Wk Ek), (iso_latin1 _ _ Wv Ev).
+    exact (IH _ Wl eq_refl).
+Qed.
+
+Lemma delitem_latin1 s n s1 :
+  latin1_state s = true -> delitem s n = Ok s1 -> latin1_state s1 = true.
+Proof.
+  unfold delitem. destruct (norm_name n); [|discriminate]. cbn [bind].
+  intros Ls H. injection H as <-. apply latin1_state_filter. exact Ls.
+Qed.
+
+(* one step keeps "every stored name and value is latin-1" *)
+Theorem step_latin1 s o :
+  op_wf o = true -> latin1_state s = true ->
+  latin1_state (fst (step s o)) = true.
+Proof.
+  intros W Ls.
+  destruct o as [c|c|n v|n v ps|n v|n|n v|n|n|n|n| | | |]; cbn [step op_wf] in *;
+    try exact Ls.
+  - destruct c as [|l|l|truthy]; cbn [init_strict of_res ctor_cps] in *;
+      try reflexivity.
+    + destruct (iso_pairs l) eqn:E; [exact (iso_pairs_latin1 _ _ W E)|exact Ls].
+    + destruct (iso_pairs l) eqn:E; [exact (iso_pairs_latin1 _ _ W E)|exact Ls].
+    + destruct truthy; [exact Ls|reflexivity].
+  - destruct c as [|l|l|truthy]; cbn [init_raw of_res]; try reflexivity;
+      try exact W.
+    destruct truthy; [exact Ls|reflexivity].
+  - apply andb_true_iff in W. destruct W as [Wn Wv]. unfold add.
+    repeat break_match; try exact Ls;
+      apply add_header_latin1; auto.
+  - apply andb_true_iff in W. destruct W as [W Wp].
+    apply andb_true_iff in W. destruct W as [Wn Wv].
+    apply add_header_latin1; auto.
+  - apply andb_true_iff in W. destruct W as [Wn Wv]. unfold setitem.
+    destruct (delitem s n) as [s1|] eqn:D; [|exact Ls].
+    apply add_header_latin1; auto. exact (delitem_latin1 _ _ _ Ls D).
+  - destruct (delitem s n) as [s1|] eqn:D; [|exact Ls].
+    exact (delitem_latin1 _ _ _ Ls D).
+  - apply andb_true_iff in W. destruct W as [Wn Wv]. unfold setdefault.
+    destruct (mapping_get s n) as [[v0|]|]; try exact Ls.
+    pose proof (add_header_latin1 s n (HArg v) [] Ls Wn Wv eq_refl) as La.
+    destruct (add_header s n (HArg v) []) as [s1 o1]. cbn [fst] in La.
+    destruct o1; exact La.
+  - destruct (mapping_get s n) as [[v0|]|]; exact Ls.
+  - destruct (get_all s n); exact Ls.
+  - destruct (contains s n); exact Ls.
+  - destruct (getitem s n); exact Ls.
+Qed.
+
+Theorem run_latin1 ops : forall s,
+  forallb op_wf ops = true -> latin1_state s = true ->
+  Forall (fun r => latin1_state (fst r) = true) (run s ops).
+Proof.
+  induction ops as [|o ops IH]; intros s W Ls; [constructor|].
+  cbn [forallb] in W. apply andb_true_iff in W. destruct W as [Wo Ws].
+  cbn [run]. pose proof (step_latin1 s o Wo Ls) as L1.
+  constructor; [exact L1|]. apply IH; assumption.
+Qed.
+
+(* ===================================================== named corollaries *)
+
+Lemma text_encodable n : encodable n = true -> text (AStr n) = Some n.
+Proof. intros H. cbn [text]. rewrite H. reflexivity. Qed.
+
+Lemma norm_name_case n1 n2 :
+  lower n1 = lower n2 -> norm_name (AStr n1) = norm_name (AStr n2).
+Proof. intros H. unfold norm_name, lower_arg, bind. rewrite H. reflexivity. Qed.
+
+(* lookups (and deletion) do not see the case of the name they are given *)
+Theorem lookup_ignores_case s n1 n2 :
+  lower n1 = lower n2 ->
+  step s (OGet (AStr n1)) = step s (OGet (AStr n2)) /\
+  step s (OGetAll (AStr n1)) = step s (OGetAll (AStr n2)) /\
+  step s (OContains (AStr n1)) = step s (OContains (AStr n2)) /\
+  step s (OGetItem (AStr n1)) = step s (OGetItem (AStr n2)) /\
+  step s (ODel (AStr n1)) = step s (ODel (AStr n2)).
+Proof.
+  intros H. cbn [step]. unfold mapping_get, contains, getitem, get_all, delitem.
+  rewrite (norm_name_case _ _ H). repeat split; reflexivity.
+Qed.
+
+Lemma same_name_case k n n' :
+  lower n' = lower n ->
+  same_name k (utf8_encode n') = same_name k (utf8_encode n).
+Proof. intros H. unfold same_name. rewrite !lower_utf8, H. reflexivity. Qed.
+
+Lemma same_name_refl k : same_name k k = true.
+Proof. unfold same_name. apply lz_eqb_refl. Qed.
+
+Lemma filter_filter_neg {A} (p : A -> bool) l :
+  filter p (filter (fun x => negb (p x)) l) = [].
+Proof.
+  induction l as [|a l IH]; [reflexivity|]. cbn [filter].
+  destruct (p a) eqn:E; cbn [negb filter]; [exact IH|]. rewrite E. exact IH.
+Qed.
+
+Lemma encodable_case n n' :
+  lower n' = lower n -> encodable n = true -> encodable n' = true.
+Proof.
+  intros H E. rewrite <- encodable_lower, H, encodable_lower. exact E.
+Qed.
+
+(* h[n] = v : every entry of that name (any casing) goes, one new entry is
+   appended, everything else stays in place; afterwards every casing of the
+   name sees exactly the new value *)
+Theorem set_replaces_all s n v :
+  encodable n = true -> encodable v = true ->
+  let s' := filter (fun kv => negb (same_name (fst kv) (utf8_encode n))) s
+            ++ [(utf8_encode n, utf8_encode v)] in
+  step s (OSet (AStr n) (AStr v)) = (s', ONone) /\
+  forall n', lower n' = lower n ->
+    step s' (OGetAll (AStr n')) = (s', OStrs [utf8_encode v]).
+Proof.
+  intros En Ev. cbn zeta. split.
+  - cbn [step]. unfold setitem.
+    rewrite (delitem_text _ _ _ (text_encodable _ En)).
+    rewrite (add_header_plain _ _ _ _ _ (text_encodable _ En)
+               (text_encodable _ Ev)). reflexivity.
+  - intros n' Hn. cbn [step].
+    rewrite (get_all_text _ _ _ (text_encodable _ (encodable_case _ _ Hn En))).
+    cbn [of_res]. f_equal. f_equal. unfold entries_of.
+    rewrite filter_app.
+    rewrite (filter_ext' _ (fun kv => same_name (fst kv) (utf8_encode n)))
+      by (intros a; apply same_name_case; exact Hn).
+    rewrite filter_filter_neg. cbn [app filter fst].
+    rewrite (same_name_case _ _ _ Hn), same_name_refl. reflexivity.
+Qed.
+
+(* del h[n] : all and only the entries of that name go *)
+Theorem del_removes_all_only s n :
+  encodable n = true ->
+  step s (ODel (AStr n)) =
+  (filter (fun kv => negb (same_name (fst kv) (utf8_encode n))) s, ONone).
+Proof.
+  intros En. cbn [step].
+  rewrite (delitem_text _ _ _ (text_encodable _ En)). reflexivity.
+Qed.
+
+(* add : refused iff the name is present (any casing) and is not Set-Cookie
+   (any casing); otherwise appended *)
+Theorem add_refuses_duplicate_except_set_cookie s n v :
+  encodable n = true -> encodable v = true ->
+  step s (OAdd (AStr n) (AStr v)) =
+  if negb (lz_eqb (lower n) s_set_cookie) &&
+     existsb (fun kv => same_name (fst kv) (utf8_encode n)) s
+  then (s, Raised KeyError)
+  else (s ++ [(utf8_encode n, utf8_encode v)], ONone).
+Proof.
+  intros En Ev. cbn [step]. unfold add.
+  cbn [not_set_cookie lower_arg bind].
+  rewrite (contains_text _ _ _ (text_encodable _ En)).
+  rewrite (add_header_plain _ _ _ _ _ (text_encodable _ En)
+             (text_encodable _ Ev)).
+  fold (has (utf8_encode n) s).
+  destruct (lz_eqb (lower n) s_set_cookie); cbn [negb andb]; [reflexivity|].
+  destruct (has (utf8_encode n) s); reflexivity.
+Qed.
+
+(* iteration order is insertion order: apart from re-construction, an
+   operation only removes entries and/or appends one at the end; the entries
+   that stay keep their order; items() is the state itself *)
+Definition is_init (o : op) : bool :=
+  match o with OInit _ | OInitRaw _ => true | _ => false end.
+
+Lemma filter_true {A} (l : list A) : filter (fun _ => true) l = l.
+Proof. induction l as [|a l IH]; [reflexivity|]. cbn [filter]. rewrite IH. reflexivity. Qed.
+
+Lemma add_header_shape s n v ps :
+  fst (add_header s n v ps) = s \/ exists x, fst (add_header s n v ps) = s ++ [x].
+Proof.
+  unfold add_header. repeat break_match; cbn [fst]; eauto.
+Qed.
+
+Theorem iteration_is_insertion_order s o :
+  is_init o = false ->
+  step s OItems = (s, OPairs s) /\
+  exists p new, fst (step s o) = filter p s ++ new /\ (length new <= 1)%nat.
+Proof.
+  intros I. split; [reflexivity|].
+  assert (Same : exists p new, s = filter p s ++ new /\ (length new <= 1)%nat).
+  { exists (fun _ => true), []. rewrite filter_true, app_nil_r. auto. }
+  assert (AH : forall n v ps, exists p new,
+             fst (add_header s n v ps) = filter p s ++ new /\ (length new <= 1)%nat).
+  { intros n v ps. destruct (add_header_shape s n v ps) as [E|(x & E)]; rewrite E.
+    - exact Same.
+    - exists (fun _ => true), [x]. rewrite filter_true. auto. }
+  destruct o as [c|c|n v|n v ps|n v|n|n v|n|n|n|n| | | |]; try discriminate;
+    cbn [step]; try exact Same.
+  - unfold add. repeat break_match; cbn [fst]; first [exact Same|apply AH].
+  - apply AH.
+  - unfold setitem, delitem. destruct (norm_name n) as [k|]; [|exact Same].
+    cbn [bind].
+    destruct (add_header_shape
+                (filter (fun kv => negb (lz_eqb (lower (fst kv)) k)) s)
+                n (HArg v) []) as [E|(x & E)]; rewrite E.
+    + eexists _, []. rewrite app_nil_r. auto.
+    + eexists _, [x]. auto.
+  - unfold delitem. destruct (norm_name n) as [k|]; [|exact Same].
+    cbn [bind of_res fst]. eexists _, []. rewrite app_nil_r. auto.
+  - unfold setdefault. destruct (mapping_get s n) as [[v0|]|]; try exact Same.
+    destruct (AH n (HArg v) []) as (p & new & E & L).
+    destruct (add_header s n (HArg v) []) as [s1 o1]. cbn [fst] in E.
+    exists p, new. destruct o1; auto.
+  - destruct (mapping_get s n) as [[v0|]|]; exact Same.
+  - destruct (get_all s n); exact Same.
+  - destruct (contains s n); exact Same.
+  - destruct (getitem s n); exact Same.
+Qed.
+
+(* ======================== the multimap over the supplied texts themselves *)
+
+(* UTF-8 is injective (on all of Z, by first-byte ranges and arithmetic) *)
+Lemma cons_eq {A} (x y : A) l l' : x :: l = y :: l' -> x = y /\ l = l'.
+Proof. intros H. inversion H. auto. Qed.
+
+Lemma enc1_inj_app a b r1 r2 :
+  enc1 a ++ r1 = enc1 b ++ r2 -> a = b /\ r1 = r2.
+Proof.
+  unfold enc1.
+  destruct (a <? 128) eqn:A1; [|destruct (a <? 2048) eqn:A2;
+    [|destruct (a <? 65536) eqn:A3]];
+  (destruct (b <? 128) eqn:B1; [|destruct (b <? 2048) eqn:B2;
+    [|destruct (b <? 65536) eqn:B3]]);
+  cbn [app]; intros H;
+  repeat match goal with
+         | H : _ :: _ = _ :: _ |- _ =>
+             apply cons_eq in H; let H1 := fresh in destruct H as [H1 H]
+         end;
+  (split; [lia | first [assumption | exfalso; lia]]).
+Qed.
+
+Lemma utf8_encode_inj a : forall b, utf8_encode a = utf8_encode b -> a = b.
+Proof.
+  induction a as [|x a IH]; intros [|y b] H.
+  - reflexivity.
+  - rewrite utf8_encode_cons in H. cbn in H.
+    pose proof (enc1_not_nil y). destruct (enc1 y); [contradiction|discriminate].
+  - rewrite utf8_encode_cons in H. cbn in H.
+    pose proof (enc1_not_nil x). destruct (enc1 x); [contradiction|discriminate].
+  - rewrite !utf8_encode_cons in H. apply enc1_inj_app in H.
+    destruct H as [-> H]. rewrite (IH _ H). reflexivity.
+Qed.
+
+Lemma lz_eqb_utf8 a b : lz_eqb (utf8_encode a) (utf8_encode b) = lz_eqb a b.
+Proof.
+  destruct (lz_eqb a b) eqn:E.
+  - apply lz_eqb_eq in E. subst. apply lz_eqb_refl.
+  - apply lz_eqb_neq. apply lz_eqb_neq in E. intros H. apply E.
+    apply utf8_encode_inj. exact H.
+Qed.
+
+Lemma same_name_utf8 a b :
+  same_name (utf8_encode a) (utf8_encode b) = same_name a b.
+Proof. unfold same_name. rewrite !lower_utf8. apply lz_eqb_utf8. Qed.
+
+(* The reference instantiated with [enc := tid] stores the supplied texts
+   themselves.  On every history without strict=False construction the
+   wire-level reference (hence, by [run_refines], the code) holds exactly
+   the UTF-8/latin-1 image of the text-level multimap, entry by entry and
+   in the same order, and raises in the same cases. *)
+Definition tid (x : str) : str := x.
+
+Definition skind (o : soutcome) : nat :=
+  match o with SRet _ => 0 | SKeyError => 1 | SRejected => 2 end%nat.
+
+Definition sim (a b : state * soutcome) : Prop :=
+  fst a = map encp (fst b) /\ skind (snd a) = skind (snd b).
+
+Lemma filter_map_comm {A B} (f : B -> bool) (g : A -> bool) (h : A -> B) l :
+  (forall a, f (h a) = g a) -> filter f (map h l) = map h (filter g l).
+Proof.
+  intros H. induction l as [|a l IH]; [reflexivity|].
+  cbn [map filter]. rewrite H. destruct (g a); cbn [map]; rewrite IH; reflexivity.
+Qed.
+
+Lemma entries_of_map t m :
+  entries_of (utf8_encode t) (map encp m) = map encp (entries_of t m).
+Proof.
+  unfold entries_of. apply filter_map_comm. intros [k v]. cbn [encp fst].
+  apply same_name_utf8.
+Qed.
+
+Lemma others_map t m :
+  others (utf8_encode t) (map encp m) = map encp (others t m).
+Proof.
+  unfold others. apply filter_map_comm. intros [k v]. cbn [encp fst].
+  rewrite same_name_utf8. reflexivity.
+Qed.
+
+Lemma has_map t m : has (utf8_encode t) (map encp m) = has t m.
+Proof.
+  unfold has. induction m as [|[k v] m IH]; [reflexivity|].
+  cbn [map existsb encp fst]. rewrite same_name_utf8, IH. reflexivity.
+Qed.
+
+Lemma spec_add_header_sim mt n v ps :
+  sim (spec_add_header utf8_encode (map encp mt) n v ps)
+      (spec_add_header tid mt n v ps).
+Proof.
+  unfold spec_add_header, sim.
+  destruct (value_texts v ps) as [[|p l]|]; destruct (text n);
+    cbn [fst snd]; split; try reflexivity.
+  rewrite map_app. reflexivity.
+Qed.
+
+Theorem spec_sim mt o :
+  strict_op o = true ->
+  sim (spec_step utf8_encode (map encp mt) o) (spec_step tid mt o).
+Proof.
+  intros S. unfold sim.
+  destruct o as [c|c|n v|n v ps|n v|n|n v|n|n|n|n| | | |]; try discriminate;
+    cbn [spec_step]; unfold with_name;
+    try (destruct (text n) as [t|]; cbn [fst snd];
+         [|split; reflexivity]);
+    try (split; reflexivity).
+  - (* OInit *)
+    destruct c as [|l|l|truthy]; cbn [spec_init]; try (split; reflexivity).
+    + destruct (pair_texts l) as [ps|]; cbn [fst snd]; split; try reflexivity.
+      rewrite map_map. apply map_ext. intros [k v]. reflexivity.
+    + destruct (pair_texts l) as [ps|]; cbn [fst snd]; split; try reflexivity.
+      rewrite map_map. apply map_ext. intros [k v]. reflexivity.
+    + destruct truthy; split; reflexivity.
+  - (* OAdd *)
+    change (has (tid t) mt) with (has t mt). rewrite has_map.
+    destruct (negb (same_name t s_set_cookie) && has t mt);
+      [split; reflexivity|apply spec_add_header_sim].
+  - apply spec_add_header_sim.
+  - (* OSet *)
+    destruct (text v) as [tv|]; cbn [fst snd]; split; try reflexivity.
+    change (tid t) with t. change (tid tv) with tv.
+    rewrite others_map, map_app. reflexivity.
+  - (* ODel *) split; [|reflexivity]. change (tid t) with t. apply others_map.
+  - (* OSetdefault *)
+    change (entries_of (tid t) mt) with (entries_of t mt).
+    rewrite entries_of_map.
+    destruct (entries_of t mt) as [|kv r]; cbn [map]; [|split; reflexivity].
+    destruct (text v) as [tv|]; cbn [fst snd]; split; try reflexivity.
+    rewrite map_app. reflexivity.
+  - (* OGetItem *)
+    change (entries_of (tid t) mt) with (entries_of t mt).
+    rewrite entries_of_map.
+    destruct (entries_of t mt); split; reflexivity.
+Qed.
+
+Theorem srun_sim ops : forall mt,
+  forallb strict_op ops = true ->
+  Forall2 sim (srun utf8_encode (map encp mt) ops) (srun tid mt ops).
+Proof.
+  induction ops as [|o ops IH]; intros mt S; [constructor|].
+  cbn [forallb] in S. apply andb_true_iff in S. destruct S as [So Ss].
+  cbn [srun]. pose proof (spec_sim mt o So) as R.
+  constructor; [exact R|]. destruct R as [Rs _]. rewrite Rs.
+  apply IH. exact Ss.
+Qed.
+
+Definition okind (o : outcome) : nat :=
+  match o with
+  | Raised KeyError => 1
+  | Raised TypeError | Raised ValueError => 2
+  | Raised AttributeError => 3
+  | _ => 0
+  end%nat.
+
+Lemma spec_ret_kind enc m o x :
+  snd (spec_step enc m o) = SRet x -> okind x = 0%nat.
+Proof.
+  destruct o as [c|c|n v|n v ps|n v|n|n v|n|n|n|n| | | |]; cbn [spec_step];
+    unfold with_name, spec_add_header, spec_init, spec_init_raw;
+    repeat break_match; cbn [snd]; intros H; inversion H; reflexivity.
+Qed.
+
+(* the code against the text-level multimap: after every step of every
+   history the stored pairs are the UTF-8 images (read as latin-1) of the
+   text-level entries, and the code raises KeyError / TypeError|ValueError
+   exactly where the text-level multimap refuses / rejects *)
+Theorem run_stores_utf8_of_texts ops : forall mt,
+  forallb benign ops = true -> forallb strict_op ops = true ->
+  Forall2 (fun a b => fst a = map encp (fst b) /\
+                      okind (snd a) = skind (snd b))
+          (run (map encp mt) ops) (srun tid mt ops).
+Proof.
+  induction ops as [|o ops IH]; intros mt B S; [constructor|].
+  cbn [forallb] in B, S. apply andb_true_iff in B. apply andb_true_iff in S.
+  destruct B as [Bo Bs]. destruct S as [So Ss]. cbn [run srun].
+  destruct (step_refines (map encp mt) o Bo) as [R1 R2].
+  destruct (spec_sim mt o So) as [Q1 Q2].
+  destruct (step (map encp mt) o) as [s1 o1].
+  destruct (spec_step tid mt o) as [m2 k2].
+  destruct (spec_step utf8_encode (map encp mt) o) as [m1 k1] eqn:K.
+  cbn [fst snd] in *. subst s1 m1.
+  constructor; [|apply IH; assumption].
+  split; [reflexivity|]. cbn [snd]. rewrite <- Q2.
+  destruct k1 as [x| |]; cbn [out_rel skind] in *.
+  - subst o1. apply (spec_ret_kind utf8_encode (map encp mt) o). rewrite K.
+    reflexivity.
+  - subst o1. reflexivity.
+  - destruct R2 as [-> | ->]; reflexivity.
+Qed.
+
+(* ============================================================ examples *)
+
+(* "X-Tok", "x-tok", "Set-Cookie", "set-cookie"; values "é" (Latin-1),
+   "€" (BMP), U+1F600 (astral) *)
+Definition ex_XTok : str := [88; 45; 84; 111; 107].
+Definition ex_xtok : str := [120; 45; 116; 111; 107].
+Definition ex_SetCookie : str := [83; 101; 116; 45; 67; 111; 111; 107; 105; 101].
+Definition ex_history : list op :=
+  [ OAdd (AStr ex_XTok) (AStr [233]);
+    OAdd (AStr ex_xtok) (AStr [98]);
+    OAdd (AStr ex_SetCookie) (AStr [8364]);
+    OAdd (AStr s_set_cookie) (AStr [128512]);
+    OSet (AStr ex_xtok) (AStr [99]);
+    OAddHeader (AStr ex_XTok) (HArg (AStr [97]))
+               [([102; 95; 110], AStr [34; 233])];
+    OGetAll (AStr ex_XTok);
+    OGet ANone; ODel (AStr [55296]) ].
+
+(* non-vacuity: a history meeting the hypotheses of the history theorems,
+   with a refused duplicate, repeated Set-Cookie, replacement, parameters *)
+Example history_example :
+  forallb benign (firstn 7 ex_history) = true /\
+  forallb strict_op ex_history = true /\
+  forallb op_wf ex_history = true /\
+  forallb benign ex_history = false /\
+  map snd (run [] ex_history) =
+  [ ONone; Raised KeyError; ONone; ONone; ONone; ONone;
+    OStrs [[99]; [97; 59; 32; 102; 45; 110; 61; 34; 92; 34; 195; 169; 34]];
+    Raised AttributeError; Raised ValueError ] /\
+  fst (last (run [] ex_history) ([], ONone)) =
+  [ (ex_SetCookie, [226; 130; 172]);
+    (s_set_cookie, [240; 159; 152; 128]);
+    (ex_xtok, [99]);
+    (ex_XTok, [97; 59; 32; 102; 45; 110; 61; 34; 92; 34; 195; 169; 34]) ].
+Proof. vm_compute. repeat split; reflexivity. Qed.
+
+Example roundtrip_example :
+  forallb is_scalar [65; 233; 8364; 65535; 128512; 1114111] = true /\
+  utf8_encode [233; 8364; 128512] = [195; 169; 226; 130; 172; 240; 159; 152; 128] /\
+  utf8 [195; 169; 226; 130; 172; 240; 159; 152; 128] = [233; 8364; 128512] /\
+  utf8 [237; 160; 128] = [237; 160; 128] /\        (* encoded surrogate *)
+  utf8 [192; 128] = [192; 128] /\                   (* overlong *)
+  iso88591 (AStr [55296]) = Err ValueError /\ iso88591 (AInt 5) = Err TypeError.
+Proof. vm_compute. repeat split; reflexivity. Qed.
